@@ -252,6 +252,17 @@ impl TaskQueue {
         }
     }
 
+    /// Ids of the tasks in the first (highest priority) entry of the ready queue
+    pub fn top_task_ids(&self) -> impl Iterator<Item = TaskId> + '_ {
+        self.queue
+            .first_key_value()
+            .into_iter()
+            .flat_map(|(_, ids)| match ids {
+                OneOrMoreTaskIds::One(task_id) => Either::Left(std::iter::once(*task_id)),
+                OneOrMoreTaskIds::More(task_ids) => Either::Right(task_ids.iter().copied()),
+            })
+    }
+
     pub fn remove_prefilled(&mut self, task_id: TaskId) {
         let prefill = self.prefill.as_mut().unwrap();
         assert!(prefill.1.remove(&task_id));
